@@ -68,6 +68,17 @@ def Expo.eval (env : Env) : Expo → Option Rat
   | .plusConst e q => (e.eval env).map (· + q)
   | .unknown => none
 
+/-- the parameters whose "elements combined per result element" an expression refers to -/
+def Expo.reducedParams : Expo → List String
+  | .reduced p => [p]
+  | .plusConst e _ => e.reducedParams
+  | _ => []
+
+/-- for the parameters `ps`: "elements combined per result element" is what `p.size // result.size`
+    computes in this call (decidable form of `EnvValidFor`, UnytProofs/Lemmas/C07.lean; the driver reports it) -/
+def envValidForB (ps : List String) (env : Env) : Bool :=
+  ps.all fun p => (Expo.reduced p).eval env == (Expo.sizeRatio p).eval env
+
 /-- one result leaf: does it carry units (a unyt object) and which exponent has the unit of each
     operand group in its unit (groups are named "0", "1", "2"; "out" = the unit an out= buffer was
     created with) -/
